@@ -44,6 +44,13 @@ pub enum OutCall {
     Fmt(String, String),
     /// handler only: `CliHandle::set_prompt(PROMPTS[i])`
     SetPrompt(usize),
+    /// `ufmt::uwrite!(w, "{}", c)` with a `char` argument (goes through `uWrite::write_char`)
+    UwriteChar(char),
+    /// `core::write!(w, "{}", c)` with a `char` argument (goes through `fmt::Write::write_char`)
+    FmtChar(char),
+    /// handler only: stop here and return `Err(ProcessError::ParseError(UnknownCommand))` - a hand-written processor
+    /// that has already printed something (a usage hint) before it rejects the command
+    FailParse,
 }
 
 impl OutCall {
@@ -53,13 +60,24 @@ impl OutCall {
             OutCall::WriteStr(s) | OutCall::Uwrite(s) => s.clone(),
             OutCall::WritelnStr(s) => format!("{}\n", s),
             OutCall::Fmt(a, b) => format!("{}-{}", a, b),
-            OutCall::SetPrompt(_) => String::new(),
+            OutCall::SetPrompt(_) | OutCall::FailParse => String::new(),
+            OutCall::UwriteChar(c) | OutCall::FmtChar(c) => c.to_string(),
         }
     }
 }
 
+/// The calls that are executed: everything before the first `FailParse`
+pub fn effective(calls: &[OutCall]) -> &[OutCall] {
+    let n = calls.iter().position(|c| matches!(c, OutCall::FailParse)).unwrap_or(calls.len());
+    &calls[..n]
+}
+
+pub fn fails_parse(calls: &[OutCall]) -> bool {
+    calls.iter().any(|c| matches!(c, OutCall::FailParse))
+}
+
 pub fn script_text(calls: &[OutCall]) -> String {
-    calls.iter().map(|c| c.text()).collect()
+    effective(calls).iter().map(|c| c.text()).collect()
 }
 
 fn run_calls(
@@ -82,6 +100,15 @@ fn run_calls(
                 }
             }
             OutCall::SetPrompt(i) => prompt = Some(*i),
+            OutCall::UwriteChar(ch) => ufmt::uwrite!(w, "{}", *ch)?,
+            OutCall::FmtChar(ch) => {
+                use core::fmt::Write;
+                if core::write!(w, "{}", ch).is_err() {
+                    let last = sink.borrow().raised.last().copied().unwrap_or(usize::MAX);
+                    return Err(SinkErr(last));
+                }
+            }
+            OutCall::FailParse => break,
         }
     }
     Ok(prompt)
@@ -429,6 +456,9 @@ impl<S: CmdSet> CommandProcessor<RecSink, SinkErr> for Proc<S> {
             let p = run_calls(cli.writer(), &script, &self.sink)?;
             if let Some(i) = p {
                 cli.set_prompt(PROMPTS[i % PROMPTS.len()]);
+            }
+            if fails_parse(&script) {
+                return Err(ProcessError::ParseError(ParseError::UnknownCommand));
             }
         }
         Ok(())
